@@ -296,9 +296,9 @@ func checkC03(c *Ctx) Meta {
 			}
 		}
 		sort.Slice(fns, func(i, j int) bool { return FuncName(fns[i]) < FuncName(fns[j]) })
-		c.aliasFrom, c.aliasTo = "C04-ENC", "C03-HIER"
+		c.pushAlias("C04-ENC", "C03-HIER")
 		c04Enc(c, t, fns)
-		c.aliasFrom, c.aliasTo = "", ""
+		c.popAlias()
 	}
 
 	// ---- SCRATCH
@@ -349,6 +349,11 @@ func checkC03(c *Ctx) Meta {
 	}
 	checkRekeyAllKeystores(c, "C03-ATOMIC")
 	checkUnlockAllOrNothing(c, "C03-ATOMIC")
+	// the lock discipline of the wallet (C14) is a premise here: a passphrase check and the effect it guards are one critical section; run under this property's name
+	c.pushAlias("C14-", "C03-LOCK-")
+	checkC14(c)
+	c.popAlias()
+
 	return Meta{
 		Explanation: "Credential gates as edge-cut dominance over every operation that reveals or changes secrets, a who-may-write rule on the stored credential, a cover rule for the eraser over all private-hierarchy fields (derived from the struct types), a lifetime rule for scrypt-derived key-decrypting keys, and the all-keystores structure of passphrase change and unlock.",
 		NotDecided:  "that zeroing is effective at machine level; cryptographic soundness of the digest check; behaviour after a restart as a value fact (C02).",
